@@ -507,9 +507,14 @@ func (s *scenario) meshing() {
 		model3d.NewRect(model3d.XYZ(-0.5, -0.25, -0.3), model3d.XYZ(1.5, 0.5, 0.3+rng.Float64())),
 	}
 	delta := 0.08 + 0.1*rng.Float64()
-	which := rng.Intn(5)
+	which := rng.Intn(6)
+	// a solid whose Contains goes through ray queries of one shared ProfileCollider
+	prof := model3d.NewColliderSolid(model3d.ProfileCollider(model2d.MeshToCollider(
+		model2d.NewMeshPolar(func(t float64) float64 { return 1 + 0.3*math.Sin(3*t) }, 40)), -0.4, 0.3+rng.Float64()))
 	s.atProcs("meshing", fmt.Sprintf("which=%d", which), func() string {
 		switch which {
+		case 5:
+			return meshDigest(model3d.MarchingCubes(prof, delta))
 		case 0:
 			return meshDigest(model3d.MarchingCubes(solid, delta))
 		case 1:
@@ -535,6 +540,12 @@ func (s *scenario) render() {
 		&render3d.ColliderObject{Collider: model3d.MeshToCollider(mesh),
 			Material: &render3d.PhongMaterial{Alpha: 5, SpecularColor: render3d.NewColor(0.3), DiffuseColor: render3d.NewColorRGB(0.2, 0.5, 0.7)}},
 	}
+	// … and one colored through the library's helper (SaveRendering's path) with a color
+	// function that is nowhere constant
+	obj = append(obj, render3d.Objectify(model3d.NewRect(model3d.XYZ(-1.2, -0.2, -1.3), model3d.XYZ(1.4, 0.6, -0.6)),
+		func(p model3d.Coord3D, rc model3d.RayCollision) render3d.Color {
+			return render3d.NewColorRGB(0.1+0.9*(p.X-math.Floor(p.X)), 0.1+0.9*(p.Z-math.Floor(p.Z)), 0.5)
+		}))
 	cam := render3d.NewCameraAt(model3d.XYZ(rng.Float64(), -4, 1), model3d.Coord3D{}, 0.8)
 	w, h := 8+rng.Intn(24), 8+rng.Intn(24)
 	s.atProcs("render", fmt.Sprintf("w=%d h=%d", w, h), func() string {
@@ -552,8 +563,12 @@ func (s *scenario) render() {
 // renderRace exercises the sampling renderers (per-goroutine RNGs: results are not
 // deterministic, so this is only used by the race-detector leg).
 func (s *scenario) renderRace() {
-	obj := &render3d.ColliderObject{Collider: &model3d.Sphere{Radius: 1},
+	var obj render3d.Object = &render3d.ColliderObject{Collider: &model3d.Sphere{Radius: 1},
 		Material: &render3d.LambertMaterial{DiffuseColor: render3d.NewColor(0.5), EmissionColor: render3d.NewColor(0.2)}}
+	obj = render3d.JoinedObject{obj, render3d.Objectify(model3d.NewRect(model3d.XYZ(-2, -0.5, -2), model3d.XYZ(2, 2, -1.2)),
+		func(p model3d.Coord3D, rc model3d.RayCollision) render3d.Color {
+			return render3d.NewColorRGB(0.1+0.9*(p.X-math.Floor(p.X)), 0.1+0.9*(p.Y-math.Floor(p.Y)), 0.5)
+		})}
 	cam := render3d.NewCameraAt(model3d.XYZ(0, -4, 0), model3d.Coord3D{}, 0.8)
 	img := render3d.NewImage(16, 16)
 	logs := 0
@@ -572,8 +587,8 @@ func (s *scenario) renderRace() {
 type recSDF struct {
 	inner model2d.PointSDF
 	mu    sync.Mutex
-	pts  []model2d.Coord
-	vals []float64
+	pts   []model2d.Coord
+	vals  []float64
 }
 
 func (r *recSDF) Min() model2d.Coord { return r.inner.Min() }
@@ -715,8 +730,22 @@ func run(c *hlib.Ctx) {
 		s.derived3(n)
 		s.derived2(n)
 		s.cacheFunc(n)
+		s.sharedq(n, collFamilies[r%len(collFamilies)])
+		s.sharedobj(n, objFamilies[r%len(objFamilies)])
 		if !s.race {
 			s.mapCoords()
+			// schedule-controlled scenarios: fully synchronised by construction, so they are of
+			// no use to the race detector
+			for _, fam := range collFamilies {
+				s.nestq(fam)
+			}
+			s.nestobj(objFamilies[r%len(objFamilies)])
+			s.nestobj(objFamilies[(r+2)%len(objFamilies)])
+			s.renderSched()
+			s.nestcache()
+			if r%10 == 0 {
+				s.kmeansSched()
+			}
 		}
 		if r%2 == 0 || s.race {
 			s.rasterize()
